@@ -10,7 +10,7 @@ PROP_ID = "C15"
 LEVEL = "exploration"
 RULE = (
     "cases = (shape, node class) with every ordered pair of nodes checked, plus a second tree for cross-tree pairs; all "
-    "shapes up to 7 (quick) / 9 (thorough) nodes are enumerated, Hypothesis adds trees up to 60 nodes with sampled pairs. "
+    "shapes up to 7 (quick) / 10 (thorough) nodes are enumerated, Hypothesis adds trees up to 60 nodes with sampled pairs. "
     "A pair is non-trivial when both upwards and downwards are non-empty; distinct_nontrivial counts distinct "
     "(shape, start, end) triples with that property (enumerated: by construction; generated: hashed per case)."
 )
@@ -149,8 +149,8 @@ def random_cases(draw):
 
 def plan(tier, seed):
     nshards = 16
-    max_nodes = 7 if tier == "quick" else 9
-    examples = 150 if tier == "quick" else 800
+    max_nodes = 7 if tier == "quick" else 10
+    examples = 150 if tier == "quick" else 3000
     tasks = [{"engine": "enum", "max_nodes": max_nodes, "index": i, "count": nshards * 2} for i in range(nshards * 2)]
     tasks += [{"engine": "hyp", "examples": examples, "seed": seed * 1000 + i} for i in range(nshards)]
     return tasks
@@ -164,4 +164,4 @@ def run_task(task, acc):
 
 
 def evidence_extra(total, tier):
-    return {"exhaustive_subdomain": "every ordered pair of nodes of every ordered tree shape with <= %d nodes" % (7 if tier == "quick" else 9)}
+    return {"exhaustive_subdomain": "every ordered pair of nodes of every ordered tree shape with <= %d nodes" % (7 if tier == "quick" else 10)}
